@@ -342,6 +342,9 @@ func (g *Gen) genOp(kind string, pool []Frame, bad float64) Op {
 		}
 	case "apply":
 		o.Fn = g.r.Intn(9)
+		if bad > 0.3 && g.chance(0.3) {
+			o.Fn = 10 + g.r.Intn(6) // results of another length or shape
+		}
 		switch g.r.Intn(5) {
 		case 0:
 		case 1:
@@ -480,6 +483,7 @@ func (g *Gen) genOp(kind string, pool []Frame, bad float64) Op {
 		o.Cell = &c
 	case "fromcsv":
 		o.Bytes = BStr(g.csvText())
+		o.N = int64(g.r.Intn(6)) // which kind of reader delivers the bytes
 	default:
 		panic("genOp: " + kind)
 	}
